@@ -34,7 +34,7 @@ fn any_dense<const N: usize>(lo: isize, hi: isize) -> WG<N, isize> {
     g
 }
 
-fn dense<const N: usize>(lo: isize, hi: isize) {
+pub fn dense<const N: usize>(lo: isize, hi: isize) {
     cx::set_vcap(N * N);
 
     let g = any_dense::<N>(lo, hi);
